@@ -11,8 +11,9 @@ from harness.common import Sub
 PROPERTY = "C19"
 RULE = ("Hypothesis draws an exact spacetime (W periodic / non-periodic, KS, "
         "PP, F, FLRW) with generic time-dependent lapse, shift, gamma, K and "
-        "NO fluid keys supplied (default fluid state); aurel at two "
-        "resolutions; u = n exactly, theta -> -K, shear -> -A_ij, vorticity "
+        "NO fluid keys supplied (default fluid state), cache settings from "
+        "'never clean' to 'memory limit below the inputs'; aurel at two "
+        "resolutions (failures re-examined on the next finer pair); u = n exactly, theta -> -K, shear -> -A_ij, vorticity "
         "-> 0, acceleration -> D_i ln(alpha) with a.n -> 0, and the full "
         "4x4 gradient nabla_mu u_nu -> exact nabla_mu n_nu from the 4D "
         "reference, at order >= p-1.5 or round-off floor. Non-trivial = "
